@@ -217,7 +217,7 @@ func newLoadedWorld() (*world, error) {
 	if err := w.load(handlerScript(), "/verif-inproc/c11.php"); err != nil {
 		return nil, fmt.Errorf("registration script: %v", err)
 	}
-	for _, name := range []string{"plain", "mw", "err", "gate", "seq", "seqerr", "lgate", "lgatemw", "cap", "obj", "boot"} {
+	for _, name := range []string{"plain", "mw", "err", "gate", "seq", "seqerr", "lgate", "lgatemw", "cap", "obj", "boot", "rec"} {
 		if w.servers[name] == nil {
 			return nil, fmt.Errorf("registration script did not hand over server %q", name)
 		}
